@@ -312,3 +312,73 @@ func H_C08_generated() {
 	vfNote(out)
 	vfAssert(out == "<"+winner+"|"+winner+">", "root body with the most-derived definition at both sites; nothing else reaches the output")
 }
+
+
+// H_C08_emptyContent: an explicitly empty content section is supplied content: inside a
+// block that was itself yielded with content, {{ yield b() content }}{{ end }} (and a block
+// whose default content is empty, at its definition site) makes the inner 'yield content'
+// render nothing - not the outer caller's content.
+//
+//gosym:reach rendered
+func H_C08_emptyContent() {
+	form := ndChoice("form", 4)
+	v := ndString("v", 1)
+	srcs := []string{
+		`{{ import "/lib.jet" }}{{ yield outer() content }}BODY{{ v }}{{ end }}`,
+		`{{ import "/lib.jet" }}{{ yield outer2() content }}BODY{{ v }}{{ end }}`,
+		`{{ import "/lib.jet" }}{{ yield outer3() content }}BODY{{ v }}{{ end }}`,
+		`{{ import "/lib.jet" }}{{ yield inner() content }}{{ end }}|{{ yield inner() content }}x{{ end }}`,
+	}
+	set := hxSet([]Option{WithSafeWriter(nil)},
+		"/lib.jet", `{{ block inner() }}<{{ yield content }}>{{ end }}`+
+			`{{ block outer() }}[{{ yield inner() content }}{{ end }}|{{ yield content }}]{{ end }}`+
+			`{{ block outer2() }}[{{ block in2() }}<{{ yield content }}>{{ content }}{{ end }}|{{ yield content }}]{{ end }}`+
+			`{{ block outer3() }}[{{ yield inner() content }}{{ yield content }}{{ end }}|{{ yield content }}]{{ end }}`,
+		"/main.jet", srcs[form],
+	)
+	vars := make(VarMap)
+	vars.Set("v", v)
+	out, err := hxExec(set, "/main.jet", vars, nil)
+	vfReach("rendered")
+	vfAssert(err == nil, "renders")
+	want := []string{"[<>|BODY" + v + "]", "[<>|BODY" + v + "]", "[<BODY" + v + ">|BODY" + v + "]", "<>|<x>"}[form]
+	vfNote(out)
+	vfAssert(out == want, "an empty content section is content; the outer caller's content shows only where it is yielded")
+}
+
+// H_C08_repeatedImport: an import list that names a template more than once: later imports
+// win over earlier ones also when the later one is a repetition (a, b, a: a's definitions),
+// at yields and at definition sites of an extended layout.
+//
+//gosym:reach rendered
+func H_C08_repeatedImport() {
+	order := ndChoice("order", 4)
+	ext := ndBool("extends")
+	lists := [][]string{{"a", "b", "a"}, {"b", "a", "b"}, {"a", "a", "b"}, {"a", "b", "b", "a"}}
+	src := ""
+	if ext {
+		src = `{{ extends "/layout.jet" }}`
+	}
+	for _, n := range lists[order] {
+		src += `{{ import "/` + n + `.jet" }}`
+	}
+	if !ext {
+		src += `{{ yield title() }}|{{ yield side() }}`
+	}
+	set := hxSet(nil,
+		"/layout.jet", `{{ block title() }}L-title{{ end }}|{{ block side() }}L-side{{ end }}`,
+		"/a.jet", `{{ block title() }}A-title{{ end }}`,
+		"/b.jet", `{{ block title() }}B-title{{ end }}{{ block side() }}B-side{{ end }}`,
+		"/m.jet", src,
+	)
+	out, err := hxExec(set, "/m.jet", nil, nil)
+	vfReach("rendered")
+	vfAssert(err == nil, "renders")
+	last := lists[order][len(lists[order])-1]
+	want := "A-title|B-side"
+	if last == "b" {
+		want = "B-title|B-side"
+	}
+	vfNote(out)
+	vfAssert(out == want, "later imports override earlier ones, repetitions included")
+}
